@@ -2012,6 +2012,9 @@ static int64_t eval3(Node *node, char ***label) {
         return eval_double(node->lhs) != 0;
       return eval2(node->lhs, label) != 0;
     }
+    // A floating value of 2^63 or more is in range only for unsigned long.
+    if (is_flonum(node->lhs->ty) && node->ty->is_unsigned && node->ty->size == 8)
+      return (uint64_t)eval_double(node->lhs);
     return eval2(node->lhs, label);
   case ND_ADDR:
     return eval_rval(node->lhs, label);
